@@ -268,3 +268,51 @@ def out_of_domain(r):
         ("nested-unsupported", [1, [2, {3: bytearray(b"x")}]]), ("nested-too-big-int", {"k": [1, 2, 2 ** 63]}),
         ("memoryview", memoryview(b"abc")), ("type", int),
     ]
+
+
+POISON = "\x00poisoned-by-an-earlier-consumer"
+
+
+def poison(v, depth=0):
+    """what an application may do with a decoded value: change it in place.  Every mutable container reachable from v gets
+    a foreign element.  If the decoder hands out shared objects (a cached empty list, a class-level default), the NEXT
+    decoded value that should be equal to its source is not."""
+    if depth > 8:
+        return
+    if isinstance(v, list):
+        for x in v:
+            poison(x, depth + 1)
+        v.append(POISON)
+    elif isinstance(v, dict):
+        for x in list(v.values()):
+            poison(x, depth + 1)
+        v[POISON] = POISON
+    elif isinstance(v, set):
+        v.add(POISON)
+    elif isinstance(v, bytearray):
+        v.extend(b"\x00poison")
+    elif hasattr(v, "__dict__") and hasattr(type(v), "_fields") or (hasattr(v, "__dict__") and type(v).__module__ != "builtins" and not isinstance(v, type)):
+        try:
+            for x in list(vars(v).values()):
+                poison(x, depth + 1)
+        except TypeError:
+            pass
+
+
+def boundary_strings(r, shard, nshards):
+    """long strings whose multi-byte characters straddle power-of-two byte offsets (readers/writers that work in blocks)"""
+    out = []
+    wide = ["\u00e9", "\u4e2d", "\U0001f600", "\ufeff"]
+    cases = [(B, k, j, w) for B in (1024, 4096, 8192, 16384, 32768, 65536, 131072) for k in (1, 2, 3) for j in (0, 1, 2, 3) for w in wide]
+    for i, (B, k, j, w) in enumerate(cases):
+        if i % nshards != shard % nshards:
+            continue
+        n = B * k - j
+        if n < 0 or n + 8 > 2 ** 20:
+            continue
+        out.append(("str-%d-bytes-before-%d-byte-char" % (n, len(w.encode("utf-8"))), "a" * n + w + "z" * r.randint(0, 5)))
+    # runs of 3-byte characters (never aligned to a power of two) across several blocks
+    if shard % 4 == 0:
+        out.append(("str-3-byte-run-200KiB", "\u4e2d" * 70000))
+        out.append(("str-mixed-run-150KiB", ("a\u00e9\u4e2d\U0001f600" * 15000)))
+    return out
